@@ -10,13 +10,13 @@ META = dict(
          "checks Accept(mutant) => mutant = base. Every case is materialised with real signed transactions and a solved "
          "header and passed to BlockChain.CheckBlockSanity; accepting a mutant is a violation.",
     note="Symbolic hash (collisions of the real hash are out of scope); transaction-level sanity and the per-type duplicate "
-         "rules of CheckDuplicateTx are satisfied by construction (plain transfers with disjoint inputs).",
+         "rules of CheckDuplicateTx are satisfied by construction (plain transfers with disjoint inputs, and one input-less NextTurnDPOSInfo transaction `n1` whose duplicates only the duplicate-transaction rule can stop).",
     technique="TLA+ decision model checked exhaustively by TLC, one implementation test per enumerated case",
 )
 
 CFG = """SPECIFICATION Spec
 CONSTANTS
-  Plain = {"t1", "t2", "t3", "t4"}
+  Plain = {"t1", "t2", "t3", "n1"}
   MaxLen = %d
 VIEW view
 INVARIANTS BaseAccepted Bound
